@@ -224,10 +224,24 @@ def search(ctx, escalate=False):
              ("create_pressure_controls", "create_pressure_control", {"from_junctions": "from_junction", "to_junctions": "to_junction", "controlled_junctions": "controlled_junction"}),
              ("create_heat_exchangers", "create_heat_exchanger", {"from_junctions": "from_junction", "to_junctions": "to_junction"}),
              ("create_heat_consumers", "create_heat_consumer", {"from_junctions": "from_junction", "to_junctions": "to_junction"})]
+    def per_element(kw, net):
+        """the same bulk call with every scalar argument given per element (for std_type: different types)"""
+        m = len(next(v for v in kw.values() if isinstance(v, list)))
+        out = {}
+        for k, v in kw.items():
+            if isinstance(v, list):
+                out[k] = v
+            elif k == "std_type":
+                names = sorted(net.std_types["pipe"])
+                out[k] = [v] + [x for x in names if x != v][:m - 1]
+            else:
+                out[k] = [v] * m
+        return out
+
     for bulk, single, ren in pairs:
-        for populated_first in (False, True):
+        for populated_first, listed in ((False, False), (True, False), (False, True)):
             na, nb = base_net(pp, Sector.ALL, True), base_net(pp, Sector.ALL, True)
-            kw = calls[bulk]
+            kw = calls[bulk] if not listed else per_element(calls[bulk], na)
             if populated_first:
                 for net in (na, nb):
                     getattr(pp, single)(net, **calls[single])
@@ -237,7 +251,7 @@ def search(ctx, escalate=False):
                 skw = {ren.get(k, k): (v[i] if isinstance(v, list) else v) for k, v in kw.items()}
                 getattr(pp, single)(nb, **skw)
             n += 1
-            distinct.add((bulk, "bulk-vs-single", populated_first))
+            distinct.add((bulk, "bulk-vs-single", populated_first, listed))
             tbl = TABLE_OF[bulk]
             a, b = na[tbl], nb[tbl]
             if list(a.index) != list(b.index) or list(a.columns) != list(b.columns):
